@@ -201,37 +201,7 @@ def run(ctx):
     res.count("insert/push/replace sites under add_instruction (positive control)", ninsert, floor=5)
 
     # R3b: CalibrationSet::replace
-    reps = [f for f in db.fns if f.path.endswith("calibration_set::CalibrationSet::<T>::replace")]
-    if len(reps) != 1:
-        res.missing_anchor("CalibrationSet::replace")
-    else:
-        f = reps[0]
-        key = "K7|in-place-replace|" + f.path
-        repl = [(bb, t) for bb, t, c in f.calls() if c and callee_path(c) == "std::mem::replace"]
-        idxmut = [(bb, t) for bb, t, c in f.calls() if c and "IndexMut" in callee_path(c)]
-        pushes = [(bb, t) for bb, t, c in f.calls() if c and callee_path(c).endswith("Vec::<T, A>::push")]
-        bad = [(bb, callee_path(c)) for bb, t, c in f.calls() if c and ORDER_DISTURBING.match(callee_path(c))]
-        ok = len(repl) == 1 and len(idxmut) >= 1 and not bad
-        why = ""
-        if ok:
-            # the replaced slot is data[index] with index = Some payload of the position lookup
-            slot = fn_expr_operand(f, repl[0][1]["args"][0])
-            ok = slot[0] == "call" and "IndexMut" in slot[1]
-            if ok:
-                from qv.rules.guards import root
-
-                ix = slot[2][1] if len(slot[2]) > 1 else ("x",)
-                r, pth = root(ix)
-                ok = r[0] == "call" and pth == ("0",)
-                why = "replaces data[index], index = Some payload of %s" % (r[1] if r[0] == "call" else "?")
-            # push only when not found: push block not dominated by the Some arm
-            if ok and pushes:
-                dom_r = f.dominators().get(repl[0][0], set())
-                dom_p = f.dominators().get(pushes[0][0], set())
-                ok = repl[0][0] not in dom_p and pushes[0][0] not in dom_r
-        res.site(key, True, {"site": key, "mem_replace": len(repl), "index_mut": len(idxmut), "push": len(pushes), "order_disturbing": bad, "detail": why, "verdict": "ok" if ok else "VIOLATION"})
-        if not ok:
-            res.find(key, f.loc(), "CalibrationSet::replace does not overwrite the found element in place (mem::replace at the found index with no length-changing call)", "redefining the first of two calibrations moves it behind the second")
+    in_place_replace_rule(db, res)
     # R4 (K10) the definition stores are also *built* in order: in the program modules (everything that constructs, merges,
     #    filters or rebuilds a Program and its stores) (a) no call that scrambles the order of the remaining elements is
     #    applied to an insertion-ordered container, and (b) the elements put into an insertion-ordered container never come
@@ -303,3 +273,38 @@ def run(ctx):
     )
     res.assumptions = ["IndexMap::insert keeps the position of an existing key", "Vec / IndexMap iterate in insertion order", "std HashMap/HashSet iteration order is unspecified"]
     return res
+
+
+def in_place_replace_rule(db, res):
+    """K7: CalibrationSet::replace overwrites the found element in place.  Shared by C08 and C16."""
+    reps = [f for f in db.fns if f.path.endswith("calibration_set::CalibrationSet::<T>::replace")]
+    if len(reps) != 1:
+        res.missing_anchor("CalibrationSet::replace")
+    else:
+        f = reps[0]
+        key = "K7|in-place-replace|" + f.path
+        repl = [(bb, t) for bb, t, c in f.calls() if c and callee_path(c) == "std::mem::replace"]
+        idxmut = [(bb, t) for bb, t, c in f.calls() if c and "IndexMut" in callee_path(c)]
+        pushes = [(bb, t) for bb, t, c in f.calls() if c and callee_path(c).endswith("Vec::<T, A>::push")]
+        bad = [(bb, callee_path(c)) for bb, t, c in f.calls() if c and ORDER_DISTURBING.match(callee_path(c))]
+        ok = len(repl) == 1 and len(idxmut) >= 1 and not bad
+        why = ""
+        if ok:
+            # the replaced slot is data[index] with index = Some payload of the position lookup
+            slot = fn_expr_operand(f, repl[0][1]["args"][0])
+            ok = slot[0] == "call" and "IndexMut" in slot[1]
+            if ok:
+                from qv.rules.guards import root
+
+                ix = slot[2][1] if len(slot[2]) > 1 else ("x",)
+                r, pth = root(ix)
+                ok = r[0] == "call" and pth == ("0",)
+                why = "replaces data[index], index = Some payload of %s" % (r[1] if r[0] == "call" else "?")
+            # push only when not found: push block not dominated by the Some arm
+            if ok and pushes:
+                dom_r = f.dominators().get(repl[0][0], set())
+                dom_p = f.dominators().get(pushes[0][0], set())
+                ok = repl[0][0] not in dom_p and pushes[0][0] not in dom_r
+        res.site(key, True, {"site": key, "mem_replace": len(repl), "index_mut": len(idxmut), "push": len(pushes), "order_disturbing": bad, "detail": why, "verdict": "ok" if ok else "VIOLATION"})
+        if not ok:
+            res.find(key, f.loc(), "CalibrationSet::replace does not overwrite the found element in place (mem::replace at the found index with no length-changing call)", "redefining the first of two calibrations moves it behind the second")
